@@ -227,11 +227,18 @@ class MonitoredList(collections.abc.MutableSequence):
             return item
 
     def __setitem__(self, index, value):
-        if isinstance(value, Iterable):
-            value = map(self._filter_func, map(self._coerce, value))
+        if isinstance(index, slice):
+            value = [self._coerce(v) for v in value]
         else:
-            value = self._filter_func(self._coerce(value))
-        self._items[index] = value
+            value = self._coerce(value)
+        # Don't change the list before we know the assignment is valid
+        items = list(self._items)
+        items[index] = value
+        # Add all items again so that duplicates are dropped like insert() does
+        self._items.clear()
+        for item in items:
+            if self._filter_func(item) is not None:
+                self._items.append(item)
         if self._callback is not None:
             self._callback(self)
 
